@@ -1,6 +1,8 @@
 package rules
 
 import (
+	"os"
+	"time"
 	"fmt"
 	"go/token"
 	"go/types"
@@ -150,16 +152,28 @@ func c19(e *Env) {
 			}
 		}
 	}
+	t0 := time.Now()
+	lap := func(what string) {
+		if os.Getenv("RULE_TIMING") != "" {
+			fmt.Fprintf(os.Stderr, "C19 %s: %.1fs\n", what, time.Since(t0).Seconds())
+		}
+		t0 = time.Now()
+	}
+	lap("sources")
 	// ---- R2 combinators
 	for _, cb := range []string{"FileCombinator", "ParamCombinator"} {
 		e.c19Combinator(cb, pts["components."+cb])
 	}
+	lap("combinators")
 	// ---- R3 selector
 	e.c19Selector(pts["components.IPSelectorSync"])
+	lap("selector")
 	// ---- R4 splitter
 	e.c19Splitter(pts["components.FileSplitter"])
+	lap("splitter")
 	// ---- R5 concatenator
 	e.c19Concatenator(pts["components.Concatenator"])
+	lap("concatenator")
 }
 
 // treeFuncs: the library functions in the expanded call tree of run, goroutines started in it included
@@ -652,7 +666,12 @@ func (e *Env) c19Splitter(run *ssa.Function) {
 		ob.Unknown("-", "Run not found")
 		return
 	}
-	g := e.XG(run)
+	// FinalizePaths is an event here, not something to look into: keeping it opaque keeps the scenarios below small
+	fin := e.P.Func("FinalizePaths")
+	g, err := e.P.BuildXG(run, core.XGOpts{NoInline: func(f *ssa.Function) bool { return f == fin && fin != nil }})
+	if err != nil || g == nil {
+		g = e.XG(run)
+	}
 	if g == nil {
 		return
 	}
